@@ -115,7 +115,15 @@ static void handle(int argc, char** argv)
 		x = hex_arg(argv[1], &n);
 		len = 0x5A5A;
 		r = pk ? bpkiPrivkeyDec(0, &len, x, n) : bpkiShareDec(0, &len, x, n);
-		if (r == ERR) printf("err");
+		if (r == ERR)
+		{
+			/* the failed decode once more, into a caller buffer of the largest documented size (exact block:
+			   a write beyond it is an ASan report) */
+			size_t cap = pk ? 64 : 33, len2 = 0;
+			v = out_buf(cap);
+			printf((pk ? bpkiPrivkeyDec(v, &len2, x, n) : bpkiShareDec(v, &len2, x, n)) == ERR ? "err" : "null-mismatch");
+			out_free(v, cap);
+		}
 		else
 		{
 			size_t len2 = 0;
@@ -148,7 +156,12 @@ static void handle(int argc, char** argv)
 		x = hex_arg(argv[1], &n);
 		len = 0x5A5A;
 		r = bpkiEdataDec(0, &len, 0, 0, x, n);
-		if (r == ERR) printf("err");
+		if (r == ERR)
+		{
+			octet* salt = out_buf(8);
+			printf(bpkiEdataDec(0, 0, salt, &iter, x, n) == ERR ? "err" : "null-mismatch");
+			out_free(salt, 8);
+		}
 		else
 		{
 			octet* salt = out_buf(8);
@@ -234,7 +247,20 @@ static void handle(int argc, char** argv)
 		err_t code;
 		x = hex_arg(argv[1], &n);
 		code = bignParamsDec(p, x, n);
-		if (code != ERR_OK) printf("err:%u", (unsigned)code);
+		if (code != ERR_OK)
+		{
+			/* the structure is zeroed first and every field is written with l / 4 octets after l is known:
+			   anything else in the 64-octet fields after a failed decode is a write beyond the field's use */
+			size_t no = p->l / 4, i, bad = (p->l != 0 && p->l != 128 && p->l != 192 && p->l != 256);
+			const octet* f[5]; f[0] = p->p, f[1] = p->a, f[2] = p->b, f[3] = p->q, f[4] = p->yG;
+			if (no > 64) no = 64;
+			for (i = 0; i < 5; ++i)
+			{
+				size_t j;
+				for (j = no; j < sizeof(p->p); ++j) bad |= (f[i][j] != 0);
+			}
+			printf("err:%u%s", (unsigned)code, bad ? " field-overrun" : "");
+		}
 		else
 		{
 			size_t no = p->l / 4;
@@ -312,11 +338,26 @@ static void handle(int argc, char** argv)
 	}
 	/* the structure after a decode, failed or not: every field at its full capacity (the block is exactly
 	   sizeof(btok_cvc_t), so a write past the structure is an ASan report; a write past a field shows here) */
-	else if ((OP("cvcimg") || OP("cvcuimg")) && argc == 2)
+	else if (((OP("cvcimg") || OP("cvcuimg")) && argc == 2) || (OP("cvckimg") && argc == 3))
 	{
 		btok_cvc_t* c = (btok_cvc_t*)out_buf(sizeof(btok_cvc_t));
 		x = hex_arg(argv[1], &n);
-		if (OP("cvcimg"))
+		if (OP("cvckimg"))
+		{
+			/* the verifying paths: an external (invalid) public key of KL octets, KL = 0: the certificate's own key.
+			   The signature length then comes from the key length, not from the probes; only the image is compared */
+			size_t kl = (size_t)u_arg(argv[2]);
+			if (kl != 0 && kl != 48 && kl != 64 && kl != 96 && kl != 128) printf("bad-op");
+			else
+			{
+				octet* key = out_buf(kl);
+				memset(key, 0xFF, kl);
+				(void)btokCVCUnwrap(c, x, n, kl ? key : c->pubkey, kl);
+				out_free(key, kl);
+				printf("-");
+			}
+		}
+		else if (OP("cvcimg"))
 		{
 			r = btokCVCBodyDec(c, x, n);
 			if (r == ERR) printf("err"); else printf("%zu", r);
